@@ -135,6 +135,40 @@ CHECKS['C13'] = dict(
     note='Masks <= 2x3, sequences <= 3 (4).',
     design='DESIGN.md 4/C13')
 
+CHECKS['C08'] = dict(
+    technique='exhaustive enumeration of bound patterns x row senses x cone mixes (and ro/dro models) on the real rsome; primal and dual formulas solved, values must be negatives',
+    text='All 7 bound patterns per variable (free, >=0, <=0, finite lower, finite upper, both, fixed) ^ n x row-sense mixes x cone mixes (none, SOC kinds, exp kinds, SOC+EXP, shared cone variables) '
+         'x min/max, plus ro models (box/1-norm/2-norm/ellipsoid sets, static and LDR) and dro models whose do_math(primal=False) goes through the robust-counterpart path; both do_math() and '
+         'do_math(primal=False) are solved (ECOS; HiGHS/Gurobi for LP formulas) and |v_P + v_D| <= tol is required whenever the primal is optimal.',
+    note='Boundedness/Slater guaranteed by extra rows independent of the bound pattern. SDP duals not covered (no solver).',
+    design='DESIGN.md 4/C08')
+CHECKS['C10'] = dict(
+    technique='exhaustive enumeration of operator chains x atoms x final uses on the real rsome classes; reference curvature calculus for accept/reject, pinned-point feasibility solves for the meaning of accepted forms; bilinear operand-class table',
+    text='29 atoms (ro and dro, perspective, piecewise, E of piecewise) x every chain up to depth 2 (3) over 22 scaling/negation/offset symbols x 12 final uses: the reference calculus decides accept / reject / either; '
+         'a reject must raise no later than st()/min()/max(); accepted forms are compiled and their MEANING is checked by pinning the variables 0.1 either side of the written inequality (feasible iff it holds by closed form; '
+         'objective value equals the closed form); every ordered operand-class pair under * and @ must raise when both depend on the same kind of variable.',
+    note='Strict reading of "no later than hand-over" as the statement says. Meaning checks stop at depth 2; grid points 0.1 from the boundary.',
+    design='DESIGN.md 4/C10')
+CHECKS['C17'] = dict(
+    technique='exhaustive cross-model table, misuse list and ALL interleavings of two model builds on the real rsome; expected-raise table and differential comparison with solo builds',
+    text='(x) 506 API entries x front-end pairs with one operand from another model; (misuse) all ordered pairs of objective methods, non-scalar objectives, ambiguity() after constraints, every read-back method on '
+         'unsolved/infeasible/unbounded models per interface; (il) all 70 (252) interleavings of two 4-op (5-op) builds x front-end pairs x set kinds: standard form, optimum and solution of each model equal its solo build. '
+         'Violation = accepted AND compiled (or a number returned for a failed model); a raise anywhere up to do_math() is loud and passes.',
+    note='Late raises (at do_math) are counted, not alarmed: the statement says "raises instead of producing a model".',
+    design='DESIGN.md 4/C17')
+CHECKS['C18'] = dict(
+    technique='exhaustive grid of exponent x scale x degree x atom x cone position x interface on the real rsome; exact exp-cone optimum and closed form vs soc_solve; structural carry-over comparison of to_socp()',
+    text='Every atom with an exp-cone encoding x exponents in [-4,4] x scales x degrees {4,5,6,8} x position of the cone among other cones/SOC rows/bounds/integer variables x {ECOS, Gurobi}: relative error of soc_solve '
+         'against the exact optimum <= 1e-3; to_socp() restricted to the original rows/columns equals the original formula and the original formula object is unchanged.',
+    note='Only the 1e-3 bound is checkable (solver noise 1e-4 at high degrees).',
+    design='DESIGN.md 4/C18')
+CHECKS['C19'] = dict(
+    technique='exhaustive enumeration of models x repetition histories x user-array variants on the real rsome; numerical equality of standard-form snapshots across repetitions, fresh builds and subprocesses with different hash seeds',
+    text='Models from small generators (LP/SOCP/exp, ro, dro) x histories over {do_math, do_math(False), solve(s), soc_solve} up to length 4 x user arrays as float64/float32/int/Fortran/strided/read-only/0-d/sparse at every entry point: '
+         'formula snapshots equal across repetitions, two fresh builds and two subprocesses with different PYTHONHASHSEED; global RNG state and user arrays untouched; read-only arrays behave like writable ones.',
+    note='-0.0 and 0.0 identified; non-float64 arrays compared with the float64 copy of the same values.',
+    design='DESIGN.md 4/C19')
+
 NOT_YET = {}
 
 
